@@ -1438,8 +1438,26 @@ static void pick_policy () {
 	p.p_jump = jumps[rnd (r, 5)];
 }
 
+// Coverage builds only: gcov's counters live in the nsync objects' .bss, which is zeroed between runs; they are
+// accumulated here word by word and put back just before the counters are dumped.
+static uint64_t *cov_acc;
+void rt_cov_accumulate () {
+	if (!__start_nsyncbss) return;
+	size_t n = (__stop_nsyncbss - __start_nsyncbss) / 8;
+	if (!cov_acc) cov_acc = (uint64_t *) calloc (n + 1, 8);
+	uint64_t *b = (uint64_t *) __start_nsyncbss;
+	for (size_t i = 0; i < n; i++) cov_acc[i] += b[i];
+}
+void rt_cov_restore () {
+	if (!__start_nsyncbss || !cov_acc) return;
+	size_t n = (__stop_nsyncbss - __start_nsyncbss) / 8;
+	uint64_t *b = (uint64_t *) __start_nsyncbss;
+	for (size_t i = 0; i < n; i++) b[i] = cov_acc[i];
+}
+extern "C" void __gcov_dump (void) __attribute__ ((weak));
 void rt_reset_run (uint64_t seed) {
 	g.stamp++;
+	if (__gcov_dump) rt_cov_accumulate ();
 	if (__start_nsyncbss && __stop_nsyncbss > __start_nsyncbss) memset (__start_nsyncbss, 0, __stop_nsyncbss - __start_nsyncbss);
 	if (g.arena_used) memset ((void *) ARENA_BASE, 0, g.arena_used + 64 < ARENA_SIZE ? g.arena_used + 64 : ARENA_SIZE);
 	g.arena_used = 0;
